@@ -2,8 +2,10 @@
 From Coq Require Import Reals ZArith List Lra.
 From PyLib Require Import Ideal Sphere.
 From PyLib Require Import PyVal PyBuiltins.
-From Gen Require Import M_base M_Angle M_Epoch M_Minor.
-From Proofs.C09 Require Import C09_spec C09_minor.
+From Gen Require Import M_base M_Angle M_Epoch M_Earth M_Minor.
+From Gen Require Import M_Mercury M_Venus M_Mars M_Jupiter M_Saturn M_Uranus M_Neptune.
+From Proofs.C09 Require Import C09_spec C09_minor C09_A_defs C09_geo.
+From Proofs.C09 Require Import C09_lt_Mercury C09_lt_Venus C09_lt_Mars C09_lt_Jupiter C09_lt_Saturn C09_lt_Uranus C09_lt_Neptune.
 Import ListNotations.
 Open Scope R_scope.
 
@@ -55,6 +57,60 @@ Theorem C09_minor_gauss om inc u :
   x = xe /\ y = ye * ce - ze * se /\ z = ye * se + ze * ce.
 Proof. exact (gauss_xyz om inc u). Qed.
 
+(* [ideal, generated code, callees abstracted] light-time stage of <Planet>.geocentric_position:
+   whatever the planet's and the Earth's geometric_heliocentric_position(epoch, tofk5=False) return
+   (l,b,r) and (l0,b0,r0) at the CALLER's epoch j, the body next asks Epoch.__isub__ for
+   (epoch j) - tau with tau = 0.0057755183 * |planet - Earth| (C09_geo.tau_of): if that call
+   failed the body would fail.  The caller's Epoch value itself is what is passed on. *)
+Theorem C09_light_time_Mercury (pl pb pr el eb er : R -> R) :
+  (forall j, Mercury_geometric_heliocentric_position Rops (C09_geo.ep j) (VBool false) = VTuple [C09_A_defs.ang (pl j); C09_A_defs.ang (pb j); VFloat (pr j)]) ->
+  (forall j, Earth_geometric_heliocentric_position Rops (C09_geo.ep j) (VBool false) = VTuple [C09_A_defs.ang (el j); C09_A_defs.ang (eb j); VFloat (er j)]) ->
+  forall j, Epoch___isub__ Rops (C09_geo.ep j) (VFloat (tau_of (pl j) (pb j) (pr j) (el j) (eb j) (er j))) = VErr ValueError ->
+  Mercury_geocentric_position Rops (C09_geo.ep j) = VErr ValueError.
+Proof. exact (light_time_stage_Mercury pl pb pr el eb er). Qed.
+
+Theorem C09_light_time_Venus (pl pb pr el eb er : R -> R) :
+  (forall j, Venus_geometric_heliocentric_position Rops (C09_geo.ep j) (VBool false) = VTuple [C09_A_defs.ang (pl j); C09_A_defs.ang (pb j); VFloat (pr j)]) ->
+  (forall j, Earth_geometric_heliocentric_position Rops (C09_geo.ep j) (VBool false) = VTuple [C09_A_defs.ang (el j); C09_A_defs.ang (eb j); VFloat (er j)]) ->
+  forall j, Epoch___isub__ Rops (C09_geo.ep j) (VFloat (tau_of (pl j) (pb j) (pr j) (el j) (eb j) (er j))) = VErr ValueError ->
+  Venus_geocentric_position Rops (C09_geo.ep j) = VErr ValueError.
+Proof. exact (light_time_stage_Venus pl pb pr el eb er). Qed.
+
+Theorem C09_light_time_Mars (pl pb pr el eb er : R -> R) :
+  (forall j, Mars_geometric_heliocentric_position Rops (C09_geo.ep j) (VBool false) = VTuple [C09_A_defs.ang (pl j); C09_A_defs.ang (pb j); VFloat (pr j)]) ->
+  (forall j, Earth_geometric_heliocentric_position Rops (C09_geo.ep j) (VBool false) = VTuple [C09_A_defs.ang (el j); C09_A_defs.ang (eb j); VFloat (er j)]) ->
+  forall j, Epoch___isub__ Rops (C09_geo.ep j) (VFloat (tau_of (pl j) (pb j) (pr j) (el j) (eb j) (er j))) = VErr ValueError ->
+  Mars_geocentric_position Rops (C09_geo.ep j) = VErr ValueError.
+Proof. exact (light_time_stage_Mars pl pb pr el eb er). Qed.
+
+Theorem C09_light_time_Jupiter (pl pb pr el eb er : R -> R) :
+  (forall j, Jupiter_geometric_heliocentric_position Rops (C09_geo.ep j) (VBool false) = VTuple [C09_A_defs.ang (pl j); C09_A_defs.ang (pb j); VFloat (pr j)]) ->
+  (forall j, Earth_geometric_heliocentric_position Rops (C09_geo.ep j) (VBool false) = VTuple [C09_A_defs.ang (el j); C09_A_defs.ang (eb j); VFloat (er j)]) ->
+  forall j, Epoch___isub__ Rops (C09_geo.ep j) (VFloat (tau_of (pl j) (pb j) (pr j) (el j) (eb j) (er j))) = VErr ValueError ->
+  Jupiter_geocentric_position Rops (C09_geo.ep j) = VErr ValueError.
+Proof. exact (light_time_stage_Jupiter pl pb pr el eb er). Qed.
+
+Theorem C09_light_time_Saturn (pl pb pr el eb er : R -> R) :
+  (forall j, Saturn_geometric_heliocentric_position Rops (C09_geo.ep j) (VBool false) = VTuple [C09_A_defs.ang (pl j); C09_A_defs.ang (pb j); VFloat (pr j)]) ->
+  (forall j, Earth_geometric_heliocentric_position Rops (C09_geo.ep j) (VBool false) = VTuple [C09_A_defs.ang (el j); C09_A_defs.ang (eb j); VFloat (er j)]) ->
+  forall j, Epoch___isub__ Rops (C09_geo.ep j) (VFloat (tau_of (pl j) (pb j) (pr j) (el j) (eb j) (er j))) = VErr ValueError ->
+  Saturn_geocentric_position Rops (C09_geo.ep j) = VErr ValueError.
+Proof. exact (light_time_stage_Saturn pl pb pr el eb er). Qed.
+
+Theorem C09_light_time_Uranus (pl pb pr el eb er : R -> R) :
+  (forall j, Uranus_geometric_heliocentric_position Rops (C09_geo.ep j) (VBool false) = VTuple [C09_A_defs.ang (pl j); C09_A_defs.ang (pb j); VFloat (pr j)]) ->
+  (forall j, Earth_geometric_heliocentric_position Rops (C09_geo.ep j) (VBool false) = VTuple [C09_A_defs.ang (el j); C09_A_defs.ang (eb j); VFloat (er j)]) ->
+  forall j, Epoch___isub__ Rops (C09_geo.ep j) (VFloat (tau_of (pl j) (pb j) (pr j) (el j) (eb j) (er j))) = VErr ValueError ->
+  Uranus_geocentric_position Rops (C09_geo.ep j) = VErr ValueError.
+Proof. exact (light_time_stage_Uranus pl pb pr el eb er). Qed.
+
+Theorem C09_light_time_Neptune (pl pb pr el eb er : R -> R) :
+  (forall j, Neptune_geometric_heliocentric_position Rops (C09_geo.ep j) (VBool false) = VTuple [C09_A_defs.ang (pl j); C09_A_defs.ang (pb j); VFloat (pr j)]) ->
+  (forall j, Earth_geometric_heliocentric_position Rops (C09_geo.ep j) (VBool false) = VTuple [C09_A_defs.ang (el j); C09_A_defs.ang (eb j); VFloat (er j)]) ->
+  forall j, Epoch___isub__ Rops (C09_geo.ep j) (VFloat (tau_of (pl j) (pb j) (pr j) (el j) (eb j) (er j))) = VErr ValueError ->
+  Neptune_geocentric_position Rops (C09_geo.ep j) = VErr ValueError.
+Proof. exact (light_time_stage_Neptune pl pb pr el eb er). Qed.
+
 Redirect "C09_final_stage_direction.assumptions" Print Assumptions C09_final_stage_direction.
 Redirect "C09_elongation_range.assumptions" Print Assumptions C09_elongation_range.
 Redirect "C09_elongation_cos.assumptions" Print Assumptions C09_elongation_cos.
@@ -62,3 +118,10 @@ Redirect "C09_corrections_small.assumptions" Print Assumptions C09_corrections_s
 Redirect "C09_minor_set.assumptions" Print Assumptions C09_minor_set.
 Redirect "C09_minor_set_parabolic.assumptions" Print Assumptions C09_minor_set_parabolic.
 Redirect "C09_minor_gauss.assumptions" Print Assumptions C09_minor_gauss.
+Redirect "C09_light_time_Mercury.assumptions" Print Assumptions C09_light_time_Mercury.
+Redirect "C09_light_time_Venus.assumptions" Print Assumptions C09_light_time_Venus.
+Redirect "C09_light_time_Mars.assumptions" Print Assumptions C09_light_time_Mars.
+Redirect "C09_light_time_Jupiter.assumptions" Print Assumptions C09_light_time_Jupiter.
+Redirect "C09_light_time_Saturn.assumptions" Print Assumptions C09_light_time_Saturn.
+Redirect "C09_light_time_Uranus.assumptions" Print Assumptions C09_light_time_Uranus.
+Redirect "C09_light_time_Neptune.assumptions" Print Assumptions C09_light_time_Neptune.
